@@ -55,6 +55,9 @@ var c20RegRoles = map[string][]string{
 }
 
 type c20X struct {
+	inHelper    map[*ssa.Function]bool // helpers whose results are being named (recursion guard)
+	r1Rule      string                 // rule id the R1 obligations are reported under
+	depthOnly   bool                   // only the confirmation-depth obligations of R1
 	c           *an.Check
 	w           *an.World
 	txw         *types.Named // swap.TxWatcher
@@ -112,23 +115,64 @@ func runC20(c *an.Check) {
 	c.Rule("C20.R6", "CSV reports of one watcher are serialised: all call sites of its CSV callback run under one common lock, and a scan that selects, reports and only later removes holds a lock across all three when it can run concurrently with itself")
 	c.Rule("C20.R7", "monotone tip: every store of a notification-derived height into the field GetBlockHeight reports is reached only on edges where new > old (or old <= 0), and the accept flag that triggers the observers is true only after such a store")
 	c.Rule("C20.R4", "RPC and Electrum: the failing edge of the window test always reaches a confirmation report with a non-nil error before returning")
+	x, conf, csv, success := c20Setup(c, "C20.R1", false)
+	if x == nil {
+		return
+	}
+	for _, s := range success {
+		x.r1(s)
+	}
+	x.r1Wiring()
+	for _, s := range csv {
+		x.r2(s)
+	}
+	x.r3()
+	x.r4(conf)
+	x.r5()
+	x.r6(csv)
+	x.r7()
+}
+
+// c20DepthRule runs exactly the confirmation-depth obligations of C20.R1 (all three
+// back-ends: depth test with the exact constants and operands obtained from the
+// server in this invocation, Electrum height sanity, LND delegation, required-depth
+// wiring) and reports them under the given rule id, so that another property can
+// claim its depth clause with them. Every call builds its own state from c.W; the
+// vacuity floors apply per call.
+func c20DepthRule(c *an.Check, rule string) {
+	if _, ok := c.RuleText[rule]; !ok {
+		c.Rule(rule, "every confirmation report that may carry a nil error is dominated by the back-end's exact depth test, computed from a height obtained from the server in the same callback invocation; required depths are the onchain constants")
+	}
+	x, _, _, success := c20Setup(c, rule, true)
+	if x == nil {
+		return
+	}
+	for _, s := range success {
+		x.r1(s)
+	}
+	x.r1Wiring()
+}
+
+// c20Setup resolves the anchors, finds the report sites and applies the per-back-end
+// vacuity floors; x is nil when the check cannot run (anchors are recorded on c).
+func c20Setup(c *an.Check, r1Rule string, depthOnly bool) (x *c20X, conf, csv, success []*c20Site) {
 	w := c.W
-	x := &c20X{c: c, w: w, callers: map[*ssa.Function][]ssa.CallInstruction{}, memo: map[ssa.Value]string{}, busy: map[ssa.Value]bool{},
+	x = &c20X{c: c, w: w, r1Rule: r1Rule, depthOnly: depthOnly, inHelper: map[*ssa.Function]bool{}, callers: map[*ssa.Function][]ssa.CallInstruction{}, memo: map[ssa.Value]string{}, busy: map[ssa.Value]bool{},
 		k: map[string]int64{}, merges: map[string][]string{}, opaqueTerms: map[string]bool{}, infeas: map[*ssa.Function]map[an.Edge]bool{}, notes: map[*ssa.Function][]string{}}
 	x.txw, x.obs = w.Named("swap", "TxWatcher"), w.Named("electrum", "TXObserver")
 	if x.txw == nil || x.obs == nil {
 		c.Anchor("swap.TxWatcher / electrum.TXObserver do not resolve")
-		return
+		return nil, nil, nil, nil
 	}
 	for _, m := range []string{c20ConfReg, c20CsvReg, c20ConfCB, c20CsvCB} {
 		if !c20HasMethod(x.txw, m) {
 			c.Anchor("swap.TxWatcher.%s does not resolve", m)
-			return
+			return nil, nil, nil, nil
 		}
 	}
 	if !c20HasMethod(x.obs, c20ObsCB) {
 		c.Anchor("electrum.TXObserver.Callback does not resolve")
-		return
+		return nil, nil, nil, nil
 	}
 	// frozen anchors (callee / field identities used as term names below): a rename
 	// must end in "cannot decide", not in a violation
@@ -161,13 +205,13 @@ func runC20(c *an.Check) {
 		}
 	}
 	if !okA {
-		return
+		return nil, nil, nil, nil
 	}
 	for _, n := range []string{"BitcoinCsv", "BitcoinCsvSafetyLimit", "BitcoinMinConfs", "LiquidConfs"} {
 		v, ok := c20Const(w, "onchain", n)
 		if !ok {
 			c.Anchor("constant onchain.%s does not resolve", n)
-			return
+			return nil, nil, nil, nil
 		}
 		x.k[n] = v
 	}
@@ -181,7 +225,6 @@ func runC20(c *an.Check) {
 	x.findSites()
 	// R1 / R2 judge the reports where they are issued; R3 / R4 also see the calls of
 	// helpers that contain a report (proxies)
-	var conf, csv, success []*c20Site
 	confBE, csvBE := map[string]bool{}, map[string]bool{}
 	for _, s := range x.sites {
 		if s.kind == "conf" {
@@ -208,20 +251,9 @@ func runC20(c *an.Check) {
 		}
 	}
 	if !okV {
-		return
+		return nil, nil, nil, nil
 	}
-	for _, s := range success {
-		x.r1(s)
-	}
-	x.r1Wiring()
-	for _, s := range csv {
-		x.r2(s)
-	}
-	x.r3()
-	x.r4(conf)
-	x.r5()
-	x.r6(csv)
-	x.r7()
+	return x, conf, csv, success
 }
 
 // ---- small lookups -----------------------------------------------------------------------
@@ -507,6 +539,11 @@ func (x *c20X) role1(v ssa.Value, bind c20Bind, d int) string {
 			case name == "func:"+c20HashPkg+".NewHashFromStr" && t.Index == 0 && len(args) == 1:
 				return x.role(args[0], bind, d+1)
 			}
+			if c20IsInt(t.Type()) {
+				if r := x.helperResult(tup, t.Index, bind, d+1); r != "" {
+					return r
+				}
+			}
 		}
 	case *ssa.Phi:
 		// leaf-based: a phi is the operand only if every incoming value is that operand
@@ -523,6 +560,11 @@ func (x *c20X) role1(v ssa.Value, bind c20Bind, d int) string {
 				leaves = append(leaves, x.role(a, bind, d+1))
 			}
 			return x.merged(strings.TrimPrefix(name, "builtin:"), ",", leaves)
+		}
+		if c20IsInt(t.Type()) && t.Common().Signature().Results().Len() == 1 {
+			if r := x.helperResult(t, 0, bind, d+1); r != "" {
+				return r
+			}
 		}
 		switch name {
 		case "func:(" + c20HashPkg + ".Hash).String", "func:(*" + c20HashPkg + ".Hash).String",
@@ -636,7 +678,9 @@ func (x *c20X) lin(v ssa.Value, bind c20Bind, d int) c20L {
 				return x.linBound(res, b2, bind, d+1)
 			}
 			if !x.modelled(g) && "call:"+x.w.Info(call).Name != "call:func:(*lnd.TxWatcher).GetBlockHeight" {
-				x.opaqueTerms[x.role(v, bind, 0)] = true
+				if r := x.role(v, bind, 0); strings.HasPrefix(r, "call:") {
+					x.opaqueTerms[r] = true
+				}
 			}
 		}
 	}
@@ -917,7 +961,8 @@ func c20TestedCall(f an.Fact) (*ssa.Call, int, c20Want, bool) {
 
 // modelled: callees whose meaning is captured by a role (FIRSTSEEN, RAWTX, …).
 func (x *c20X) modelled(callee *ssa.Function) bool {
-	return "func:"+x.w.FuncName(callee) == c20FnLookup || x.isHeightLookup(callee)
+	// (*lnd.TxWatcher).GetBlockHeight is the LND back-end's "ask the node for the tip now"; its result is an operand by name
+	return "func:"+x.w.FuncName(callee) == c20FnLookup || x.isHeightLookup(callee) || x.w.FuncName(callee) == "(*lnd.TxWatcher).GetBlockHeight"
 }
 
 // expand: f says that a helper of the module returned true / false / nil / non-nil;
@@ -1520,9 +1565,12 @@ func (x *c20X) judgeLin(rule, cons, pos string, g []c20Group, okDetail, badDetai
 	for _, sp := range specs {
 		for _, f := range facts {
 			for t := range f.Terms {
-				leaves, ok := x.merges[t]
-				if !ok {
+				if _, isKey := sp.Terms[t]; isKey {
 					continue
+				}
+				leaves, isMerge := x.merges[t]
+				if !isMerge {
+					leaves = []string{t}
 				}
 				for k, ck := range sp.Terms {
 					// the fact must be the required test with the operand k replaced by the merge t
@@ -1551,7 +1599,19 @@ func (x *c20X) judgeLin(rule, cons, pos string, g []c20Group, okDetail, badDetai
 							untraceable = true
 						}
 					}
-					if !has {
+					// an operand that is (or may be) a field written in an earlier invocation: a cache
+					var remembered []string
+					for _, l := range foreign {
+						if x.rememberedField(l) {
+							remembered = append(remembered, l)
+						}
+					}
+					if len(remembered) > 0 && c20HeightOperand(k) {
+						x.c.Bad(rule, cons, pos, badDetail+" — depth counted from a remembered height: the test that is there ("+f.String()+") uses "+t+" where "+k+
+							" (a height the server reported in this invocation) is required; "+strings.Join(remembered, ", ")+" is a field that an earlier invocation wrote, so a re-organisation that moves or drops the transaction is not seen")
+						return
+					}
+					if !has || !isMerge {
 						continue
 					}
 					msg := badDetail + " — the test that is there (" + f.String() + ") does not use " + k + " alone but the merge " + t + ": the operand is replaced by " + strings.Join(foreign, ", ") + " on some path"
@@ -1588,6 +1648,78 @@ func (x *c20X) judgeLin(rule, cons, pos string, g []c20Group, okDetail, badDetai
 	x.judge(rule, cons, pos, false, g, okDetail, badDetail)
 }
 
+// rememberedField: the role names a struct field that production code writes
+// outside a constructor literal, i.e. a value kept from an earlier invocation.
+func (x *c20X) rememberedField(role string) bool {
+	if !strings.HasPrefix(role, "field:") {
+		return false
+	}
+	for _, st := range x.prodWriters(strings.TrimPrefix(role, "field:")) {
+		if fa, ok := st.Addr.(*ssa.FieldAddr); ok {
+			if _, fresh := fa.X.(*ssa.Alloc); fresh {
+				continue
+			}
+		}
+		return true
+	}
+	return false
+}
+
+// c20HeightOperand: the spec operand is a height / depth obtained from the server.
+func c20HeightOperand(k string) bool {
+	return strings.HasPrefix(k, "TXHEIGHT[") || strings.HasPrefix(k, "FIRSTSEEN[") || strings.HasPrefix(k, "CONFS[") || k == "field:confirmationEvent.blockHeight"
+}
+
+// helperResult names result idx of a call of an in-module helper by what the helper
+// returns: the merge of the returned values (helper parameters standing for the
+// call's arguments). Returns that carry a definitely non-nil error are left out when
+// the caller tests that error.
+func (x *c20X) helperResult(call *ssa.Call, idx int, bind c20Bind, d int) string {
+	g := call.Common().StaticCallee()
+	if g == nil || !x.w.InModule(g) || g.Blocks == nil || x.modelled(g) || d > 6 || x.inHelper[g] {
+		return ""
+	}
+	x.inHelper[g] = true
+	defer delete(x.inHelper, g)
+	b2 := c20Bind{}
+	for k, a := range bind {
+		b2[k] = a
+	}
+	for i, p := range g.Params {
+		if i < len(call.Call.Args) {
+			a := call.Call.Args[i]
+			if ap, isP := c20Strip(a).(*ssa.Parameter); isP && bind[ap] != nil {
+				a = bind[ap]
+			}
+			b2[p] = a
+		}
+	}
+	okE, _ := an.OkEdges(call)
+	var leaves []string
+	for _, r := range an.Returns(g) {
+		if idx >= len(r.Results) || !c20BlockReachable(r.Block()) {
+			continue
+		}
+		skip := false
+		if len(okE) > 0 {
+			for j, rv := range r.Results {
+				if j != idx && an.IsErrorType(rv.Type()) {
+					if alts, ok := x.valueAlts(rv, c20Nil, b2, nil, x.w.FactsDominating(r), 0); ok && len(alts) == 0 {
+						skip = true // this return hands back an error: the caller does not use the value
+					}
+				}
+			}
+		}
+		if !skip {
+			leaves = append(leaves, x.role(r.Results[idx], b2, d+1))
+		}
+	}
+	if len(leaves) == 0 {
+		return ""
+	}
+	return x.merged("ret", "|", leaves)
+}
+
 // ---- R1 -----------------------------------------------------------------------------------
 
 func (x *c20X) r1(s *c20Site) {
@@ -1595,15 +1727,18 @@ func (x *c20X) r1(s *c20Site) {
 	pos := w.Pos(s.instr.Pos())
 	g := x.factsAt(s.instr)
 	need := func(sub string, ok bool, what string) {
-		x.judge("C20.R1", s.name+" :: "+sub, pos, ok, g, what+" dominates the report",
+		x.judge(x.r1Rule, s.name+" :: "+sub, pos, ok, g, what+" dominates the report",
 			"a confirmation report with a possibly-nil error is not dominated by "+what+". Facts that do hold: "+c20Describe(g))
 	}
 	needLin := func(sub string, what string, specs ...an.LinSpec) {
-		x.judgeLin("C20.R1", s.name+" :: "+sub, pos, g, what+" dominates the report",
+		x.judgeLin(x.r1Rule, s.name+" :: "+sub, pos, g, what+" dominates the report",
 			"a confirmation report with a possibly-nil error is not dominated by "+what+". Facts that do hold: "+c20Describe(g), specs...)
 	}
 	txRole := x.role(s.txHex, nil, 0)
 	lookupOK := func(wantRole string) {
+		if x.depthOnly {
+			return
+		}
 		cons := s.name + " :: raw transaction"
 		bad := fmt.Sprintf("the raw transaction handed to the swap is %s (want %s fetched by a call whose nil-error edge dominates the report). Facts: %s", txRole, wantRole, c20Describe(g))
 		calls := x.producers(s.txHex, 0)
@@ -1618,22 +1753,26 @@ func (x *c20X) r1(s *c20Site) {
 				}
 				return false
 			}
-			x.judge("C20.R1", cons, pos, c20Holds(g, errNil), g, "the reported raw transaction is "+wantRole+" and the lookup's error is nil on every path", bad)
+			x.judge(x.r1Rule, cons, pos, c20Holds(g, errNil), g, "the reported raw transaction is "+wantRole+" and the lookup's error is nil on every path", bad)
 		case isConst || (strings.HasPrefix(txRole, "RAWTX[") && txRole != wantRole):
 			// a constant, or the right lookup made with the wrong arguments
-			c.Bad("C20.R1", cons, pos, bad)
+			c.Bad(x.r1Rule, cons, pos, bad)
 		default:
-			c.Unknown("C20.R1", cons, pos, "cannot trace the reported raw transaction to the lookup call: "+bad)
+			c.Unknown(x.r1Rule, cons, pos, "cannot trace the reported raw transaction to the lookup call: "+bad)
 		}
 	}
 	window := c20Spec(">", 0, "REG_START", 1, "REG_WINDOW", 1, "CUR", -1)
 	switch w.FnRel(s.fn) {
 	case "txwatcher":
-		needLin("window", "the open-window test start+window-current > 0 on the registered start/window", window)
+		if !x.depthOnly {
+			needLin("window", "the open-window test start+window-current > 0 on the registered start/window", window)
+		}
 		needLin("depth", "the depth test current-(firstSeen-1) >= requiredConfs with firstSeen looked up for the registered (txid,start,vout)", c20Spec(">=", 1, "CUR", 1, "FIRSTSEEN[txid,start,vout]", -1, "field:BlockchainRpcTxWatcher.requiredConfs", -1))
 		lookupOK("RAWTX[txid,start,vout]")
 	case "electrum":
-		needLin("window", "the open-window test start+window-current > 0 on the registered start/window", window)
+		if !x.depthOnly {
+			needLin("window", "the open-window test start+window-current > 0 on the registered start/window", window)
+		}
 		needLin("depth", fmt.Sprintf("the depth test tip-txHeight+1 >= onchain.LiquidConfs (%d) for the registered txid", x.k["LiquidConfs"]), c20Spec(">=", 1-x.k["LiquidConfs"], "CUR", 1, "TXHEIGHT[txid]", -1))
 		needLin("tip>0", "tip > 0", c20Spec(">", 0, "CUR", 1))
 		needLin("txHeight>0", "txHeight > 0 (Electrum reports unconfirmed transactions with height <= 0)", c20Spec(">", 0, "TXHEIGHT[txid]", 1))
@@ -1642,19 +1781,21 @@ func (x *c20X) r1(s *c20Site) {
 	case "lnd":
 		needLin("safety limit", fmt.Sprintf("the safety test current-confHeight+1 < onchain.BitcoinCsvSafetyLimit (%d) with confHeight the confirmation event's own height", x.k["BitcoinCsvSafetyLimit"]),
 			c20Spec(">", x.k["BitcoinCsvSafetyLimit"]-1, "field:confirmationEvent.blockHeight", 1, "call:func:(*lnd.TxWatcher).GetBlockHeight#0", -1))
-		need("height lookup", c20Holds(g, func(f an.Fact) bool { return an.EqIs(f, "==", "lnd.TxWatcher).GetBlockHeight#1", "nil") }), "the nil-error edge of GetBlockHeight")
-		_, txConst := c20Strip(s.txHex).(*ssa.Const)
-		switch {
-		case strings.Contains(txRole, "confirmationEvent.rawTx"):
-			c.OK("C20.R1", s.name+" :: raw transaction", pos, "the reported raw transaction is the one of lnd's confirmation event")
-		case txConst:
-			c.Bad("C20.R1", s.name+" :: raw transaction", pos, "the raw transaction handed to the swap is the constant "+txRole+", not the confirmation event's")
-		default:
-			c.Unknown("C20.R1", s.name+" :: raw transaction", pos, "cannot trace the reported raw transaction ("+txRole+") to lnd's confirmation event")
+		if !x.depthOnly {
+			need("height lookup", c20Holds(g, func(f an.Fact) bool { return an.EqIs(f, "==", "lnd.TxWatcher).GetBlockHeight#1", "nil") }), "the nil-error edge of GetBlockHeight")
+			_, txConst := c20Strip(s.txHex).(*ssa.Const)
+			switch {
+			case strings.Contains(txRole, "confirmationEvent.rawTx"):
+				c.OK(x.r1Rule, s.name+" :: raw transaction", pos, "the reported raw transaction is the one of lnd's confirmation event")
+			case txConst:
+				c.Bad(x.r1Rule, s.name+" :: raw transaction", pos, "the raw transaction handed to the swap is the constant "+txRole+", not the confirmation event's")
+			default:
+				c.Unknown(x.r1Rule, s.name+" :: raw transaction", pos, "cannot trace the reported raw transaction ("+txRole+") to lnd's confirmation event")
+			}
 		}
 		x.r1LndDelegation(s)
 	default:
-		c.Unknown("C20.R1", s.name, pos, "confirmation report in a package whose back-end is not modelled (txwatcher, electrum, lnd)")
+		c.Unknown(x.r1Rule, s.name, pos, "confirmation report in a package whose back-end is not modelled (txwatcher, electrum, lnd)")
 	}
 }
 
@@ -1729,27 +1870,27 @@ func (x *c20X) r1LndDelegation(s *c20Site) {
 				nc, ok1 := an.CompositeFieldValue(al, "NumConfs")
 				tx, ok2 := an.CompositeFieldValue(al, "Txid")
 				if !ok1 || !ok2 {
-					c.Unknown("C20.R1", cons, pos, "the confirmation request literal does not set NumConfs or Txid itself")
+					c.Unknown(x.r1Rule, cons, pos, "the confirmation request literal does not set NumConfs or Txid itself")
 					continue
 				}
 				switch tr := x.role(tx, nil, 0); {
 				case tr == "REG_TXID":
-					c.OK("C20.R1", s.name+" :: registered txid", pos, "lnd is asked about the registered txid")
+					c.OK(x.r1Rule, s.name+" :: registered txid", pos, "lnd is asked about the registered txid")
 				case strings.HasPrefix(tr, "REG_") || strings.HasPrefix(tr, "K:"):
-					c.Bad("C20.R1", s.name+" :: registered txid", pos, "ConfRequest.Txid is "+tr+", not the registered txid")
+					c.Bad(x.r1Rule, s.name+" :: registered txid", pos, "ConfRequest.Txid is "+tr+", not the registered txid")
 				default:
-					c.Unknown("C20.R1", s.name+" :: registered txid", pos, "cannot trace ConfRequest.Txid ("+tr+") to the registered txid")
+					c.Unknown(x.r1Rule, s.name+" :: registered txid", pos, "cannot trace ConfRequest.Txid ("+tr+") to the registered txid")
 				}
 				numConfs := func(v ssa.Value, pos string) {
 					_, isK := c20Strip(v).(*ssa.Const)
 					term := w.Term(v)
 					switch {
 					case strings.Contains(term, "TxWatcher.targetConfs"):
-						c.OK("C20.R1", cons, pos, "the confirmation registration asks lnd for targetConfs confirmations")
+						c.OK(x.r1Rule, cons, pos, "the confirmation registration asks lnd for targetConfs confirmations")
 					case isK || strings.HasPrefix(term, "field:TxWatcher."):
-						c.Bad("C20.R1", cons, pos, "the confirmation registration asks lnd for "+term+" confirmations, not TxWatcher.targetConfs")
+						c.Bad(x.r1Rule, cons, pos, "the confirmation registration asks lnd for "+term+" confirmations, not TxWatcher.targetConfs")
 					default:
-						c.Unknown("C20.R1", cons, pos, "cannot trace ConfRequest.NumConfs ("+term+") to TxWatcher.targetConfs")
+						c.Unknown(x.r1Rule, cons, pos, "cannot trace ConfRequest.NumConfs ("+term+") to TxWatcher.targetConfs")
 					}
 				}
 				p, isParam := c20Strip(nc).(*ssa.Parameter)
@@ -1766,7 +1907,7 @@ func (x *c20X) r1LndDelegation(s *c20Site) {
 					numConfs(call.Common().Args[c20ParamIndex(p)], w.Pos(call.Pos()))
 				}
 				if !found {
-					c.Unknown("C20.R1", cons, pos, "no call of "+w.FuncName(p.Parent())+" in the functions that lead to the report")
+					c.Unknown(x.r1Rule, cons, pos, "no call of "+w.FuncName(p.Parent())+" in the functions that lead to the report")
 				}
 			}
 		}
@@ -1798,7 +1939,7 @@ func (x *c20X) r1Wiring() {
 		for _, st := range ws {
 			p, ok := c20Strip(st.Val).(*ssa.Parameter)
 			if !ok {
-				c.Unknown("C20.R1", "required depth "+f.key, w.Pos(st.Pos()), "written from "+w.Term(st.Val)+", not from a constructor parameter")
+				c.Unknown(x.r1Rule, "required depth "+f.key, w.Pos(st.Pos()), "written from "+w.Term(st.Val)+", not from a constructor parameter")
 				continue
 			}
 			for _, call := range x.callers[p.Parent()] {
@@ -1809,7 +1950,7 @@ func (x *c20X) r1Wiring() {
 				cons := fmt.Sprintf("required depth %s <- %s", f.key, w.FuncName(call.Parent()))
 				v, isK := an.ConstInt(arg)
 				if _, isConst := c20Strip(arg).(*ssa.Const); !isConst || !isK {
-					c.Unknown("C20.R1", cons, w.Pos(call.Pos()), "the required depth is not a constant: "+w.Term(arg))
+					c.Unknown(x.r1Rule, cons, w.Pos(call.Pos()), "the required depth is not a constant: "+w.Term(arg))
 					continue
 				}
 				want := f.def
@@ -1827,14 +1968,14 @@ func (x *c20X) r1Wiring() {
 						ok = true
 					}
 				}
-				c.Decide(ok, "C20.R1", cons, w.Pos(call.Pos()), fmt.Sprintf("required depth %d = onchain.%s", v, strings.Join(want, "|")),
+				c.Decide(ok, x.r1Rule, cons, w.Pos(call.Pos()), fmt.Sprintf("required depth %d = onchain.%s", v, strings.Join(want, "|")),
 					fmt.Sprintf("the watcher is constructed with required depth %d, not onchain.%s", v, strings.Join(want, "|")))
 			}
 		}
 	}
 	_ = n
 	for _, k := range []string{"BlockchainRpcTxWatcher.requiredConfs", "TxWatcher.targetConfs"} {
-		c.AtLeast("C20.R1", "constructor call sites that set "+k, perField[k], 1)
+		c.AtLeast(x.r1Rule, "constructor call sites that set "+k, perField[k], 1)
 	}
 }
 
